@@ -214,11 +214,15 @@ func (e *CoreEngine) Loc(name string) *core.Location {
 	if l, ok := e.Locs[name]; ok {
 		return l
 	}
-	l, err := e.Open(name)
-	if err != nil {
-		panic(fmt.Sprintf("harness: open %s: %v", name, err))
+	var l *core.Location
+	var err error
+	for i := 0; i < 3; i++ {
+		// an injected (one-shot) load failure is reported by NewLocation: open again
+		if l, err = e.Open(name); err == nil {
+			return l
+		}
 	}
-	return l
+	panic(fmt.Sprintf("harness: open %s: %v", name, err))
 }
 
 // RestartAll drops every live object and rebuilds all known locations from
